@@ -59,8 +59,12 @@ def strategy(tier):
     agree = st.fixed_dictionaries({"mode": st.just("agree"), "tree": trees.common_tree_strategy(leaves)})
     wrong = st.fixed_dictionaries({
         "mode": st.just("wrongroot"), "tree": trees.tree_strategy("xml", 6),
-        "tags": st.lists(st.one_of(st.sampled_from(["config", "Config", "a", "item"]), trees.key_strategy("xml")),
-                         min_size=2, max_size=2, unique=True),
+        "tags": st.one_of(
+            st.lists(st.one_of(st.sampled_from(["config", "Config", "a", "item"]), trees.key_strategy("xml")), min_size=2, max_size=2, unique=True),
+            # tags that contain each other: a reader must compare the whole tag
+            st.sampled_from([["appconfig", "config"], ["config", "appconfig"], ["my-config", "config"], ["xa", "a"], ["a", "xa"], ["configx", "config"],
+                             ["config", "configx"], ["config", "conf"], ["conf", "config"], ["ns.config", "config"], ["config_", "config"]]),
+            trees.key_strategy("xml").flatmap(lambda k: st.sampled_from([[k + "x", k], ["x" + k, k], [k, k + "x"], [k, "x" + k], [k.upper(), k.lower()]]).filter(lambda p: p[0] != p[1]))),
     })
     return st.one_of(*[single(f) for f in trees.FORMATS], agree, agree, wrong)
 
